@@ -53,6 +53,30 @@ def _direct_attr(e: ast.expr) -> str | None:
     return None
 
 
+def require_plain_buffers(ctx) -> None:
+    """The buffer rules read `buf[key] = m`, `buf.pop(key)`, iteration ... on a flat dict keyed by (node, child,
+    type): a container of another shape (a dict of per-node dicts, a defaultdict, a list) is not modelled - say so
+    before any rule draws conclusions from stores and removals it does not recognise."""
+    err = getattr(ctx, "_buffer_shape", None)
+    if err is None:
+
+        class _Null:
+            tier = "quick"
+            notes: dict = {}
+
+            def __getattr__(self, _name):
+                return lambda *a, **k: None
+
+        try:
+            buffer_plain(ctx, _Null())
+            err = ""
+        except AnalysisError as e:
+            err = str(e)
+        ctx._buffer_shape = err
+    if err:
+        raise AnalysisError(f"sleep buffer container not modelled: {err}")
+
+
 def prepare(ctx) -> None:
     """Index local aliases of the buffers and helper functions that touch them (once per Ctx)."""
     if _PREPARED and _PREPARED[0] is ctx:
@@ -121,6 +145,7 @@ def helper_calls(ctx, f: FuncInfo, what: str, attr: str) -> list[tuple[ast.Call,
     from .common import callee_names
 
     prepare(ctx)
+    require_plain_buffers(ctx)
     out = []
     for n in ctx.own_nodes(f):
         if not isinstance(n, ast.Call):
@@ -185,6 +210,7 @@ def send_buffered_flag(call: ast.Call):
 def removal_sites(ctx: Ctx, f: FuncInfo, attr: str) -> list[tuple[ast.AST, ast.expr | None]]:
     """(node, key expr) of removals from <x>.<attr> in f, including calls of helpers that remove (key: HelperKey)."""
     prepare(ctx)
+    require_plain_buffers(ctx)
     out = _removal_sites_direct(ctx, f, attr)
     for call, nm in helper_calls(ctx, f, "removes", attr):
         hk = _HKEYS.get((id(call), attr))
@@ -213,6 +239,7 @@ def _removal_sites_direct(ctx, f: FuncInfo, attr: str) -> list[tuple[ast.AST, as
 
 def store_sites(ctx: Ctx, f: FuncInfo, attr: str) -> list[tuple[ast.Assign, ast.expr, ast.expr]]:
     prepare(ctx)
+    require_plain_buffers(ctx)
     return _store_sites_direct(ctx, f, attr)
 
 
@@ -242,6 +269,7 @@ def _reads_direct(ctx, f: FuncInfo, attr: str) -> bool:
 def flush_functions(ctx: Ctx, attr: str = "set_messages") -> list[FuncInfo]:
     """Functions that iterate entries of the buffer (directly or through a helper that hands them out) and send them."""
     prepare(ctx)
+    require_plain_buffers(ctx)
     out = []
     for f in ctx.prog.all_functions():
         if not any(is_send(n) for n in ctx.own_nodes(f) if isinstance(n, ast.stmt)):
@@ -592,6 +620,44 @@ def buffer_once(ctx, chk, rule: str = "BUFFER-ONCE") -> None:
                     chk.ok(rule, key, "the buffer is created during construction only", f"{f.module.relpath}:{node.lineno}", sample=n <= 1)
                 else:
                     chk.refute(rule, key, f"{f.qualname} re-binds the sleep buffer (`{norm(node)[:60]}`): every command parked for a sleeping node at that moment is silently dropped and never written at the node's wake", f"{f.module.relpath}:{node.lineno}")
+    # constructions of the buffer class, directly or as the default of a field of a state object: every place that
+    # builds one must be construction-time code of the gateway (a buffer that comes with a state object is re-created
+    # whenever that object is)
+    bufcls = [c for c in ctx.prog.all_classes() if any(nm in BUFFERS for nm, _v in c.attr_order)]
+    carriers = list(bufcls)
+    for _ in range(3):
+        for c in ctx.prog.all_classes():
+            if c in carriers:
+                continue
+            for _nm, val in c.attr_order:
+                if val is None:
+                    continue
+                for kw in [k_ for x in ast.walk(val) if isinstance(x, ast.Call) for k_ in x.keywords if k_.arg == "default_factory"]:
+                    d = ctx.prog.resolve_expr(c.module, kw.value) if isinstance(kw.value, (ast.Name, ast.Attribute)) else None
+                    if d is not None and d.kind == "class" and d.obj in carriers and c not in carriers:
+                        carriers.append(c)
+    for f in ctx.prog.all_functions():
+        for node in ctx.own_nodes(f):
+            if not (isinstance(node, ast.Call) and isinstance(node.func, (ast.Name, ast.Attribute))):
+                continue
+            d = ctx.prog.resolve_expr(ctx.prog.origin(f.module, node), node.func)
+            if d is None or d.kind != "class" or d.obj not in carriers:
+                continue
+            par = ctx.prog.parents.get(node)
+            if isinstance(par, (ast.Assign, ast.AnnAssign)) and any(isinstance(t, ast.Attribute) and t.attr == "_message_buffer" for t in (par.targets if isinstance(par, ast.Assign) else [par.target])):
+                continue  # judged above
+            n += 1
+            chk.instance(rule)
+            key = f"{f.fq}::{norm(node)[:60]}::constructs-buffer"
+            ok = f.name in ("__init__", "__post_init__")
+            if not ok and f.cls is not None and f.name.startswith("_") and not f.name.startswith("__"):
+                callers = [g_ for g_ in ctx.prog.all_functions() if g_ is not f and any(isinstance(x, ast.Attribute) and x.attr == f.name for x in ctx.own_nodes(g_))]
+                ok = bool(callers) and all(g_.name == "__init__" and g_.cls is f.cls for g_ in callers)
+            if ok:
+                chk.ok(rule, key, "built during construction only", ctx.loc(f, node), sample=False)
+            else:
+                what = d.obj.name if d.obj in bufcls else f"{d.obj.name} (which carries a fresh sleep buffer as a field default)"
+                chk.refute(rule, key, f"{f.qualname} builds a new {what} (`{norm(node)[:60]}`): every command parked for a sleeping node and every outstanding-request marker held at that moment is silently dropped", ctx.loc(f, node))
     chk.floor(rule, "bindings of the sleep buffer", n, 1)
 
 
